@@ -40,7 +40,7 @@ def dec(s):
 
 
 def gen_cmd(rng, cid, nmax, blanks=False):
-    n = rng.choice([0, 1, 2, 3, 5, 8, nmax])
+    n = nmax if nmax > 1000 else rng.choice([0, 1, 2, 3, 5, 8, nmax])
     # `~` = a blank line (see harness/src/session.rs SItem): it matches inverse terms and the empty query only
     items = ["%s-%d.%d" % (rng.choice(WORDS) if not blanks or rng.random() > 0.2 else "~", cid, i) for i in range(n)]
     # chunking in time
@@ -106,7 +106,9 @@ def gen_session(rng, kind):
             # aim at 0 / 1 / 2 matches, arriving early or late
             spec, n = gen_cmd(rng, cid, rng.choice([1, 2, 4, 12]))
         else:
-            spec, n = gen_cmd(rng, cid, rng.choice([12, 30, 120]), blanks)
+            # (now and then a source longer than any internal batch size of the matcher: identities must not depend on how a run is cut up)
+            big = kind == "c10" and not interactive and rng.random() < 0.04
+            spec, n = gen_cmd(rng, cid, 1500 if big else rng.choice([12, 30, 120]), blanks)
         cmds.append("%s=%s" % (name, spec))
     evs = []
     if kind == "c14":
